@@ -521,21 +521,22 @@ class Balancer:
             left_msb_zero = None
 
         if low > 0:
-            left_lsb = inner[high - 1 : 0]
+            left_lsb = inner[low - 1 : 0]
             left_lsb_zero = claripy.backends.vsa.is_true(left_lsb == 0)
         else:
             left_lsb = None
             left_lsb_zero = None
 
+        # the comparison carries over to the whole value only if every bit outside the extracted part is known to be zero
         if left_msb_zero and left_lsb_zero:
             new_left = inner
             new_right = claripy.Concat(claripy.BVV(0, len(left_msb)), truism.args[1], claripy.BVV(0, len(left_lsb)))
             return Bool(truism.op, (new_left, new_right))
-        if left_msb_zero:
+        if left_msb_zero and left_lsb is None:
             new_left = inner
             new_right = claripy.Concat(claripy.BVV(0, len(left_msb)), truism.args[1])
             return Bool(truism.op, (new_left, new_right))
-        if left_lsb_zero:
+        if left_lsb_zero and left_msb is None:
             new_left = inner
             new_right = claripy.Concat(truism.args[1], claripy.BVV(0, len(left_lsb)))
             return Bool(truism.op, (new_left, new_right))
